@@ -149,6 +149,11 @@ frg::expected<format_error> printf_format(A agent, const char *s, va_struct *vsp
 			++s;
 			FRG_ASSERT(*s);
 			opts.minimum_width = pop_arg<int>(vsp, &opts);
+			// A negative field width is taken as a - flag followed by a positive width.
+			if(opts.minimum_width < 0) {
+				opts.left_justify = true;
+				opts.minimum_width = -opts.minimum_width;
+			}
 		}else{
 			int w = 0;
 			while(*s >= '0' && *s <= '9') {
@@ -167,6 +172,9 @@ frg::expected<format_error> printf_format(A agent, const char *s, va_struct *vsp
 				++s;
 				FRG_ASSERT(*s);
 				opts.precision = pop_arg<int>(vsp, &opts);
+				// A negative precision is taken as if the precision were omitted.
+				if(*opts.precision < 0)
+					opts.precision = null_opt;
 			}else{
 				int value = 0;
 				// If no integer follows the '.', then precision is taken to be zero
